@@ -719,8 +719,16 @@ func (api *API) ClusterMessage(ctx context.Context, reqBody io.Reader) error {
 		return errors.Wrap(err, "reading body")
 	}
 
+	// The body arrives from the network (HTTP, or gossip where nothing
+	// recovers a panic): an empty body or an unknown type byte is an error.
+	if len(body) == 0 {
+		return errors.New("empty cluster message")
+	}
 	typ := body[0]
 	msg := getMessage(typ)
+	if msg == nil {
+		return errors.Errorf("unknown cluster message type %d", typ)
+	}
 	err = api.server.serializer.Unmarshal(body[1:], msg)
 	if err != nil {
 		return errors.Wrap(err, "deserializing cluster message")
